@@ -357,7 +357,7 @@ class Interp:
         if isinstance(st, ast.Continue):
             fl.cont = set(s.at(st, 'cont') for s in states)
             return fl
-        if isinstance(st, (ast.Pass, ast.Global, ast.Import, ast.ImportFrom)):
+        if isinstance(st, (ast.Pass, ast.Global, ast.Nonlocal, ast.Import, ast.ImportFrom)):
             fl.normal = set(states)
             return fl
         if isinstance(st, (ast.FunctionDef, ast.ClassDef)):
